@@ -62,7 +62,8 @@ class C03(Prop):
     theorems = ["C03_base_buckets_are_contiguous_runs", "C03_ordinal_fit_contiguous",
                 "C03_only_contiguous_groupings_enumerated", "C03_carved_groups_are_contiguous_runs",
                 "C03_nan_placement_keeps_contiguity", "C03_quantile_leaders_strictly_increasing",
-                "C03_transform_monotone", "C03_transform_right_closed_intervals", "C03_checker_sound"]
+                "C03_transform_monotone", "C03_transform_right_closed_intervals", "C03_checker_sound",
+                "C03_categorical_leaders_in_target_rate_order", "C03_rate_order_is_global"]
     rule = ("fitted objects of all classes (c04 generator: 40-400 rows, 1-3 features, NaN, output_dtype x "
             "dropna) + the base Discretizer with the same parameters; per fitted feature: base-level groups as "
             "positions in the natural order (sorted boundaries / user ranking), carve-level groups as positions "
